@@ -470,6 +470,143 @@ for pat, what in [(r"jinit_c_master_control\(cinfo, FALSE\s*\);\s*if \(!cinfo->r
                   (r"jinit_marker_writer\(cinfo\);\s*\(\*cinfo->mem->realize_virt_arrays\) \(\(j_common_ptr\)cinfo\);\s*\(\*cinfo->marker->write_file_header\) \(cinfo\);", "marker writer / file header")]:
     if not re.search(pat, jci):
         die("jcinit.c: %s no longer has the modelled form" % what)
+
+# ---------------------------------------------------------------- jcinit.c jinit_compress_master as a decision tree
+def preprocess(src, defined):
+    """resolve #ifdef NAME / #else / #endif for the feature macros of the build (all defined)"""
+    out, stack = [], []
+    for ln in src.split("\n"):
+        t = ln.strip()
+        mm = re.match(r"#\s*ifdef\s+(\w+)", t)
+        if mm:
+            if mm.group(1) not in defined:
+                die("jcinit.c: #ifdef %s: unknown feature macro" % mm.group(1))
+            stack.append(True); continue
+        if re.match(r"#\s*else", t):
+            if not stack:
+                die("jcinit.c: #else without #ifdef")
+            stack[-1] = not stack[-1]; continue
+        if re.match(r"#\s*endif", t):
+            if not stack:
+                die("jcinit.c: #endif without #ifdef")
+            stack.pop(); continue
+        if t.startswith("#"):
+            die("jcinit.c: unexpected preprocessor line in jinit_compress_master: " + t)
+        if all(stack):
+            out.append(ln)
+    return "\n".join(out)
+
+m = re.search(r"GLOBAL\(void\)\s*jinit_compress_master\(j_compress_ptr cinfo\)\s*\{(.*)\n\}", strip_comments(rd("jcinit.c")), re.S)
+if not m:
+    die("jcinit.c: jinit_compress_master not found")
+cm_src = preprocess(m.group(1), {"C_LOSSLESS_SUPPORTED", "C_ARITH_CODING_SUPPORTED", "C_PROGRESSIVE_SUPPORTED"})
+cm_toks = re.findall(r"[A-Za-z_]\w*|\d+|->|==|!=|<=|>=|\|\||&&|[{}();,!<>*&.]", cm_src)
+
+CM_MODULES = ["c_master_control", "color_converter", "downsampler", "c_prep_controller", "lossless_compressor", "lhuff_encoder",
+              "c_diff_controller", "forward_dct", "arith_encoder", "phuff_encoder", "huff_encoder", "c_coef_controller",
+              "c_main_controller", "marker_writer", "realize_virt_arrays", "write_file_header"]
+CM_ERRS = {"JERR_ARITH_NOTIMPL": "ArithNotImpl_", "JERR_BAD_PRECISION": "BadPrecision_", "JERR_NOT_COMPILED": "NotCompiled_"}
+
+class CMParser:
+    def __init__(self, toks):
+        self.t, self.i = toks, 0
+    def peek(self, k=0):
+        return self.t[self.i + k] if self.i + k < len(self.t) else None
+    def eat(self, x=None):
+        tok = self.peek()
+        if tok is None or (x is not None and tok != x):
+            die("jcinit.c: jinit_compress_master: expected %r, found %r near token %d" % (x, tok, self.i))
+        self.i += 1
+        return tok
+    def cond(self):
+        """cond := '!'? atom ; atom := cinfo->raw_data_in | cinfo->master->lossless | cinfo->arith_code | cinfo->progressive_mode
+                                        | cinfo->data_precision (<=|==) N"""
+        neg = False
+        if self.peek() == "!":
+            self.eat(); neg = True
+        self.eat("cinfo"); self.eat("->")
+        f = self.eat()
+        if f == "master":
+            self.eat("->"); f = self.eat()
+            if f != "lossless":
+                die("jcinit.c: unknown condition field master->%s" % f)
+            c = "CLossless"
+        elif f == "raw_data_in":
+            c = "CRaw"
+        elif f == "arith_code":
+            c = "CArith"
+        elif f == "progressive_mode":
+            c = "CProg"
+        elif f == "data_precision":
+            op = self.eat(); n = self.eat()
+            if op not in ("<=", "==") or not n.isdigit():
+                die("jcinit.c: unknown precision test %s %s" % (op, n))
+            c = "(%s %s)" % ("CPrecLe" if op == "<=" else "CPrecEq", n)
+        else:
+            die("jcinit.c: unknown condition field %s" % f)
+        return "(CNot %s)" % c if neg else c
+    def args_until_close(self):
+        depth, out = 1, []
+        while True:
+            tok = self.eat()
+            if tok == "(":
+                depth += 1
+            elif tok == ")":
+                depth -= 1
+                if depth == 0:
+                    return out
+            out.append(tok)
+    def stmt(self):
+        tok = self.peek()
+        if tok == "{":
+            self.eat()
+            items = []
+            while self.peek() != "}":
+                items.append(self.stmt())
+            self.eat("}")
+            return "(TSeq [%s])" % "; ".join(items)
+        if tok == "if":
+            self.eat(); self.eat("("); c = self.cond(); self.eat(")")
+            th = self.stmt()
+            el = "TNop"
+            if self.peek() == "else":
+                self.eat(); el = self.stmt()
+            return "(TIf %s %s %s)" % (c, th, el)
+        if tok in ("ERREXIT", "ERREXIT1", "ERREXIT2"):
+            self.eat(); self.eat("("); a = self.args_until_close(); self.eat(";")
+            if len(a) < 3 or a[0] != "cinfo" or a[2] not in CM_ERRS:
+                die("jcinit.c: unknown ERREXIT in jinit_compress_master: %r" % a)
+            return "(TErr %s)" % CM_ERRS[a[2]]
+        if tok == "(":        # (*cinfo->mem->realize_virt_arrays) ((j_common_ptr)cinfo);  /  (*cinfo->marker->write_file_header) (cinfo);
+            self.eat(); self.eat("*"); self.eat("cinfo"); self.eat("->"); self.eat(); self.eat("->"); name = self.eat(); self.eat(")")
+            self.eat("("); self.args_until_close(); self.eat(";")
+            if name not in CM_MODULES:
+                die("jcinit.c: unknown method call %s in jinit_compress_master" % name)
+            return "(TCall %d ArgNone)" % CM_MODULES.index(name)
+        mm = re.fullmatch(r"j(?:12|16)?init_(\w+)", tok or "")
+        if mm:
+            self.eat(); self.eat("("); a = self.args_until_close(); self.eat(";")
+            name = mm.group(1)
+            if name not in CM_MODULES:
+                die("jcinit.c: unknown module initialiser %s in jinit_compress_master" % tok)
+            rest = a[2:] if a[:1] == ["cinfo"] and len(a) > 1 else []
+            if a == ["cinfo"]:
+                arg = "ArgNone"
+            elif rest == ["FALSE"]:
+                arg = "ArgFalse"
+            elif rest == ["(", "boolean", ")", "(", "cinfo", "->", "num_scans", ">", "1", "||", "cinfo", "->", "optimize_coding", ")"]:
+                arg = "ArgFullBuf"
+            else:
+                die("jcinit.c: unknown argument list of %s: %r" % (tok, a))
+            return "(TCall %d %s)" % (CM_MODULES.index(name), arg)
+        die("jcinit.c: unknown statement in jinit_compress_master starting at %r" % tok)
+
+cmp_ = CMParser(cm_toks)
+cm_items = []
+while cmp_.peek() is not None:
+    cm_items.append(cmp_.stmt())
+cm_tree = "TSeq [%s]" % ";\n    ".join(cm_items)
+
 # ---------------------------------------------------------------- TurboJPEG: tables and checks of tj3Compress*
 def tj_array(src, name, fname):
     mm = re.search(r"%s\[[^\]]*\]\s*=\s*\{([^}]*)\}" % name, src)
@@ -653,6 +790,14 @@ out.append("(* jpeg_default_colorspace: (in_color_space, jpeg colour space, jpeg
 out.append("Definition g_default_colorspace : list (Z * Z * Z) :=\n  [%s]." % "; ".join("(%d, %d, %d)" % t for t in dflt_rows))
 for nm, l in (("g_tjPixelSize", tj_pixsize), ("g_tjMCUWidth", tj_mcuw), ("g_tjMCUHeight", tj_mcuh), ("g_tj_pf2cs", tj_pf2cs), ("g_tjcs2jcs", tjcs)):
     out.append("Definition %s : list Z :=\n  [%s]." % (nm, "; ".join(map(str, l))))
+out.append("\n(* jcinit.c jinit_compress_master, statement by statement (feature macros of the build resolved) *)")
+out.append("Inductive cm_cond := CRaw | CLossless | CArith | CProg | CPrecLe (n : Z) | CPrecEq (n : Z) | CNot (c : cm_cond).")
+out.append("Inductive cm_arg := ArgNone | ArgFalse | ArgFullBuf.")
+out.append("Inductive cm_err := ArithNotImpl_ | BadPrecision_ | NotCompiled_.")
+out.append("Inductive cm_tree := TNop | TSeq (l : list cm_tree) | TIf (c : cm_cond) (t e : cm_tree) | TCall (module : Z) (a : cm_arg) | TErr (e : cm_err).")
+for i, nm in enumerate(CM_MODULES):
+    out.append("Definition g_MOD_%s : Z := %d." % (nm, i))
+out.append("Definition g_compress_master : cm_tree :=\n  %s." % cm_tree)
 out.append("\n(* jpeg_simple_progression: the two scripts as calls (kind, a, b, c, d, e): 0 fill_dc_scans(Ah, Al), 1 fill_a_scan(ci, Ss, Se, Ah, Al), 2 fill_scans(Ss, Se, Ah, Al) *)")
 for nm, l in (("g_sp_ycc", sp_ycc), ("g_sp_gen", sp_gen)):
     out.append("Definition %s : list (Z * Z * Z * Z * Z * Z) :=\n  [%s]." % (nm, "; ".join("(%d, %d, %d, %d, %d, %d)" % t for t in l)))
